@@ -22,5 +22,8 @@ SuffixOk(cs) == cs.cls = "suffix" =>
 NestedOk(cs) == cs.cls = "nested" =>
                    (Outcome(cs).ok /\ BaseVal(cs).ok => Outcome(cs).val[cs.field] = BaseVal(cs).val[cs.field])
 
-PHolds == PermOk(Case) /\ DupOk(Case) /\ MissingOk(Case) /\ ForeignOk(Case) /\ SuffixOk(Case) /\ NestedOk(Case)
+\* nestedtail: the reference hands on the unread tail of the nested container followed by what follows the container
+NestedTailOk(cs) == cs.cls = "nestedtail" => (Outcome(cs).ok => Len(Outcome(cs).rest) > 0)
+
+PHolds == NestedTailOk(Case) /\ PermOk(Case) /\ DupOk(Case) /\ MissingOk(Case) /\ ForeignOk(Case) /\ SuffixOk(Case) /\ NestedOk(Case)
 =============================================================================
